@@ -5,7 +5,7 @@
      save_npz / load_npz     sparse/numba_backend/_io.py.  Everything that is a *table* in that code (which
                              members are written for which exact class, which members each load attempt reads
                              and in which order, which constructor parameter each member feeds, the constant
-                             constructor flags, np.load's allow_pickle, the testzip guard, optional reads, the
+                             constructor flags, np.load's allow_pickle, the testzip guard, read / write modes of the members, the
                              exception caught and the handler's action) is NOT written here: it is Gen/S_npz.v, regenerated from the AST on every
                              run by tools/sitegen/npz.py.  This file interprets those tables.
      COO.__init__            the part the load path and the Numba boxing path run (_coo/core.py)
@@ -126,26 +126,30 @@ Section Npz.
   Definition test_holds (t : cls_test) (k : klass) : bool :=
     match t with TypeIs c => klass_eqb k c | IsInstance c => klass_isinstance k c end.
 
-  Fixpoint select_branch (bs : list (cls_test * list (string * string * bool))) (k : klass)
-    : list (string * string * bool) :=
+  Fixpoint select_branch (bs : list (cls_test * list (string * string * write_mode))) (k : klass)
+    : list (string * string * write_mode) :=
     match bs with
     | [] => []
     | (t, ms) :: r => if test_holds t k then ms else select_branch r k
     end.
 
-  (* (member, attribute, written only if the attribute is not None) *)
-  Definition save_table (k : klass) : list (string * string * bool) :=
-    map (fun na => (fst na, snd na, false)) save_base ++ select_branch save_branches k.
+  (* (member, attribute, how it is written) *)
+  Definition save_table (k : klass) : list (string * string * write_mode) :=
+    map (fun na => (fst na, snd na, WPlain)) save_base ++ select_branch save_branches k.
 
-  Fixpoint collect (x : arr) (tbl : list (string * string * bool)) : res members :=
+  Fixpoint collect (x : arr) (tbl : list (string * string * write_mode)) : res members :=
     match tbl with
     | [] => Ok []
-    | (n, a, guarded) :: r =>
+    | (n, a, mode) :: r =>
       match attr x a with
       | None => Raise OtherError                       (* AttributeError *)
       | Some f =>
         ms <- collect x r ;;
-        if guarded && is_object f then Ok ms else Ok ((n, f) :: ms)
+        match mode with
+        | WPlain => Ok ((n, f) :: ms)
+        | WIfNotNone => if is_object f then Ok ms else Ok ((n, f) :: ms)
+        | WNoneAsEmpty => Ok ((n, if is_object f then FInts [] else f) :: ms)   (* () becomes an empty array *)
+        end
       end
     end.
 
@@ -190,24 +194,32 @@ Section Npz.
     Ok (mkGCXS sh axes data indices indptr fill).
 
   (* ---------------------------------------------------------------- load_npz *)
-  (* the reads of one try-block; None = KeyError.  An optional read (`fp[m] if m in fp else None`) of an absent
-     member yields None instead of raising *)
-  Fixpoint do_reads (names : list (string * bool)) (m : members) : option (res unit) :=
+  (* the reads of one try-block; None = KeyError.  An ROptionalNone read of an absent member yields None instead of
+     raising *)
+  Fixpoint do_reads (names : list (string * read_mode)) (m : members) : option (res unit) :=
     match names with
     | [] => Some (Ok tt)
-    | (n, optional) :: r =>
+    | (n, mode) :: r =>
       match mget n m with
-      | None => if optional then do_reads r m else None
+      | None => match mode with ROptionalNone => do_reads r m | _ => None end
       | Some FObject => if load_allow_pickle then do_reads r m else Some (Raise ValueError)
       | Some _ => do_reads r m
       end
     end.
 
+  (* ndarray.size *)
+  Definition field_size (f : field) : Z :=
+    match f with
+    | FData l => len l | FInts l => len l | FMat r cols => r * len cols | FScalar _ => 1 | FObject => 1
+    end.
+
   (* the value bound by the read of member n in attempt a (after do_reads succeeded) *)
   Definition read_value (a : attempt) (m : members) (n : string) : option field :=
-    match mget n m with
-    | Some f => Some f
-    | None => match assoc n (at_reads a) with Some true => Some FObject | _ => None end
+    match mget n m, assoc n (at_reads a) with
+    | Some f, Some REmptyAsNone => if field_size f =? 0 then Some FObject else Some f   (* if v.size == 0: v = None *)
+    | Some f, _ => Some f
+    | None, Some ROptionalNone => Some FObject
+    | None, _ => None
     end.
 
   Definition flag (a : attempt) (defaults : list (string * bool)) (n : string) : bool :=
@@ -329,14 +341,6 @@ Section Npz.
      compressed axes, data, indices, indptr, shape and fill (the class of format is kept, not the subclass) *)
   Definition as_saved (x : arr) : arr :=
     match x with ACoo c => ACoo c | AGcxs _ g => AGcxs KGCXS g end.
-
-  (* clause MM_optional_compressed_axes (missing-member theorem): the `compressed_axes` member is not the one that is
-     missing from the file of an array that has compressed axes *)
-  Definition mm_axes_kept (x : arr) (keep : string -> bool) : bool :=
-    match x with
-    | AGcxs _ g => match g_axes g with Some _ => keep s_axes | None => true end
-    | ACoo _ => true
-    end.
 
   (* ---------------------------------------------------------------- pickle *)
   Inductive pstate := STuple (l : list field) | SDict (d : members).
